@@ -680,6 +680,55 @@ fn perm_components(rep: &Reporter, rng: &mut SplitMix64, n: usize) {
     }
 }
 
+/// The mutation rate a component works with is the one in the state (its constructor only provides the initial value):
+/// built with rate 1 and the state then set to 0 nothing may change, built with 0 and set to 1 everything does.
+fn rate_from_state(rep: &Reporter, n: usize) {
+    use mahf::components::mutation::MutationRate;
+    let mut rng = SplitMix64::new(rep.seed).fork(0xC13_5);
+    macro_rules! probe {
+        ($name:expr, $P:ty, $problem:expr, $pop:expr, $comp:expr, $ty:ty, $built:expr, $changed_all:expr) => {{
+            rep.case();
+            rep.nontrivial(hash_of(&($name, "rate-from-state", $built.to_bits())));
+            let problem = $problem;
+            let pop = $pop;
+            let comp = $comp;
+            let other = 1.0 - $built;
+            let mut st = State::<$P>::new();
+            let mut pops = Populations::<$P>::new();
+            pops.push(pop.clone().into_individuals());
+            st.insert(pops);
+            st.insert(Random::new(rng.next_u64()));
+            let r = catch(|| {
+                comp.init(&problem, &mut st).map_err(|e| e.to_string())?;
+                st.set_value::<MutationRate<$ty>>(other);
+                comp.execute(&problem, &mut st).map_err(|e| e.to_string())
+            });
+            let after: Vec<_> = st.populations().get_current().map(|c| c.iter().map(|i| i.solution().clone()).collect()).unwrap_or_default();
+            let ok = matches!(r, Ok(Ok(())))
+                && after.len() == pop.len()
+                && if other == 0.0 { after == pop } else { !$changed_all || after.iter().zip(&pop).all(|(a, b)| a.iter().zip(b.iter()).all(|(x, y)| x != y)) };
+            if !ok {
+                rep.violation(&format!("{}:works-with-the-constructor-rate-instead-of-the-rate-in-the-state", $name), json!({"built_with_rate": $built, "rate_in_the_state": other, "result": format!("{r:?}"), "changed": after != pop}));
+            }
+        }};
+    }
+    for _ in 0..n {
+        let dim = 2 + rng.usize(6);
+        let real = Real::new(dim, -5.0, 5.0, RealFn::Sphere);
+        let rpop: Vec<Vec<f64>> = (0..1 + rng.usize(5)).map(|_| (0..dim).map(|_| rng.f64_in(-4.0, 4.0)).collect()).collect();
+        let bits = Bits::new(dim, BitFn::OneMax);
+        let bpop: Vec<Vec<bool>> = (0..1 + rng.usize(5)).map(|_| (0..dim).map(|_| rng.bool()).collect()).collect();
+        for built in [0.0f64, 1.0] {
+            probe!("NormalMutation", Real, Real::new(dim, -5.0, 5.0, RealFn::Sphere), rpop.clone(), mutation::NormalMutation::new::<Real>(0.5, built), mutation::NormalMutation, built, true);
+            probe!("UniformMutation", Real, Real::new(dim, -5.0, 5.0, RealFn::Sphere), rpop.clone(), mutation::UniformMutation::new::<Real>(0.5, built), mutation::UniformMutation, built, true);
+            probe!("PartialRandomSpread", Real, Real::new(dim, -5.0, 5.0, RealFn::Sphere), rpop.clone(), mutation::PartialRandomSpread::new::<Real>(built), mutation::PartialRandomSpread, built, true);
+            probe!("BitFlipMutation", Bits, Bits::new(dim, BitFn::OneMax), bpop.clone(), mutation::BitFlipMutation::new::<Bits>(built), mutation::BitFlipMutation, built, true);
+            probe!("PartialRandomBitstring", Bits, Bits::new(dim, BitFn::OneMax), bpop.clone(), mutation::PartialRandomBitstring::new::<Bits>(0.5, built), mutation::PartialRandomBitstring, built, false);
+        }
+        let _ = (&real, &bits);
+    }
+}
+
 /// Every public constructor of every variation component builds a component that runs on a valid population.
 fn constructors(rep: &Reporter) {
     use mahf::identifier::A;
@@ -747,6 +796,7 @@ fn constructors(rep: &Reporter) {
 fn main() {
     let rep = Reporter::from_args("C13");
     constructors(&rep);
+    rate_from_state(&rep, rep.tier.pick(200, 20_000));
     rep.rule("functional helpers exhaustively: circular_swap vs circular_swap2 vs a reference shift on identity + 3 shuffled sequences per length 2..7 x every ordered tuple of >=2 distinct indices; translocate_slice vs translocate_slice2 vs a reference on all ranges (incl. empty and ending at len) x all admissible indices; uniform / multi-point crossover on all parent pairs over {0,1,2}^len, len<=4, x all masks / all cut sets in both orders; arithmetic crossover on a value x alpha grid; cycle crossover on all pairs of permutations up to length 5. Components (seeded): every mutation / recombination / DE component on populations of 0..9 individuals, dimension 1..12, rates and probabilities in {0,.3|.5,1}: no panic and no Err on valid input, dimension and elements conserved, rate 0 changes nothing, offspring counts follow insert-one/insert-both/probability, position-wise gene conservation, SwapMutation for 2 <= k <= dimension changes exactly k positions, DEMutation maps n(2y+1) -> n with the documented formula and errs on any other length. distinct_nontrivial = distinct (operator, parameter, shape) cells");
     rep.assume("valid = dimension >= 2 for permutation mutations, n < dimension for n-point crossover, equal parent lengths");
     helpers_permutation(&rep);
